@@ -1412,4 +1412,124 @@ theorem encodeField_length (o : SortOptions) (t : FTy) (v : FVal) (hv : t.admits
       simp [encodeField, encodeFixedSlot, fieldLength, invIf_length, fixedBody_length _ i hv]; omega
     | some (.bytes _), hv => simp [FTy.admits] at hv
 
+
+theorem swapIf_then (d : Bool) (a b : Ordering) : swapIf d (a.then b) = (swapIf d a).then (swapIf d b) := by
+  cases d <;> cases a <;> cases b <;> rfl
+
+theorem compareVal_some (o : SortOptions) (x y : List UInt8) :
+    compareVal o compareBytes (some x) (some y) = swapIf o.descending (compareBytes x y) := rfl
+
+/-- **list step**: if every element row is non-empty, the list encoding (each element
+variable-length encoded, then the empty-sentinel terminator) is strictly ordered like the
+lists of element rows, lexicographically, a proper prefix first — reversed as a whole when
+descending. -/
+theorem listEnc_cmp (o : SortOptions) : ∀ (xs ys : List (List UInt8)), (∀ x ∈ xs, x ≠ []) → (∀ y ∈ ys, y ≠ []) →
+    cmpStrict (listEnc o xs) (listEnc o ys) = some (swapIf o.descending (lexCompare compareBytes xs ys)) := by
+  intro xs
+  induction xs with
+  | nil =>
+    intro ys _ hy
+    cases ys with
+    | nil => rw [cmpStrict_eq_iff.mpr rfl]; cases o.descending <;> rfl
+    | cons y ys =>
+      have hne : y ≠ [] := hy y (by simp)
+      simp only [listEnc, List.map_nil, List.flatten_nil, List.nil_append, List.map_cons, List.flatten_cons, List.append_assoc]
+      rw [← List.append_nil (encodeVar o (some []))]
+      rw [cmpStrict_append_of_cmpStrict _ _ (encodeVar_cmp o (some []) (some y)), compareVal_some]
+      cases y with
+      | nil => exact absurd rfl hne
+      | cons b bs => cases o.descending <;> rfl
+  | cons x xs ih =>
+    intro ys hx hy
+    have hxne : x ≠ [] := hx x (by simp)
+    cases ys with
+    | nil =>
+      simp only [listEnc, List.map_nil, List.flatten_nil, List.nil_append, List.map_cons, List.flatten_cons, List.append_assoc]
+      rw [← List.append_nil (encodeVar o (some []))]
+      rw [cmpStrict_append_of_cmpStrict _ _ (encodeVar_cmp o (some x) (some [])), compareVal_some]
+      cases x with
+      | nil => exact absurd rfl hxne
+      | cons b bs => cases o.descending <;> rfl
+    | cons y ys =>
+      have h := ih ys (fun z hz => hx z (by simp [hz])) (fun z hz => hy z (by simp [hz]))
+      simp only [listEnc, List.map_cons, List.flatten_cons, List.append_assoc] at h ⊢
+      rw [cmpStrict_append_of_cmpStrict _ _ (encodeVar_cmp o (some x) (some y)), compareVal_some, h]
+      simp only [lexCompare, swapIf_then]
+      cases swapIf o.descending (compareBytes x y) <;> rfl
+
+/-- **struct / fixed-size-list step**: a validity byte followed by parts that are pairwise
+strictly comparable is strictly ordered lexicographically by the parts -/
+theorem concat_cmp : ∀ (xs ys : List (List UInt8)) (rs : List Ordering), xs.length = ys.length → rs.length = xs.length →
+    (∀ i (h1 : i < xs.length) (h2 : i < ys.length) (h3 : i < rs.length), cmpStrict xs[i] ys[i] = some rs[i]) →
+    cmpStrict xs.flatten ys.flatten = some (rs.foldr Ordering.then .eq) := by
+  intro xs
+  induction xs with
+  | nil =>
+    intro ys rs h1 h2 _
+    cases ys with
+    | nil => cases rs with
+      | nil => rfl
+      | cons _ _ => simp at h2
+    | cons _ _ => simp at h1
+  | cons x xs ih =>
+    intro ys rs h1 h2 h
+    cases ys with
+    | nil => simp at h1
+    | cons y ys =>
+      cases rs with
+      | nil => simp at h2
+      | cons r rs =>
+        have h0 := h 0 (by simp) (by simp) (by simp)
+        simp only [List.getElem_cons_zero] at h0
+        simp only [List.flatten_cons, List.foldr_cons]
+        rw [cmpStrict_append_of_cmpStrict _ _ h0]
+        rw [ih ys rs (by simpa using h1) (by simpa using h2)
+          (fun i a b c => by
+            have := h (i + 1) (by simp; omega) (by simp; omega) (by simp; omega)
+            simp only [List.getElem_cons_succ] at this
+            exact this)]
+        cases r <;> rfl
+
+
+theorem paddedLength_pos (l : Option Nat) : 0 < paddedLength l := by
+  cases l with
+  | none => decide
+  | some n => simp only [paddedLength, miniBlockCount_eq]; split <;> omega
+
+theorem fieldLength_pos (t : FTy) (v : FVal) : 0 < fieldLength t v := by
+  unfold fieldLength
+  split <;> first | exact paddedLength_pos _ | omega
+
+theorem encodeField_ne_nil (o : SortOptions) (t : FTy) (v : FVal) (hv : t.admits v = true) : encodeField o t v ≠ [] := by
+  intro h
+  have h1 := encodeField_length o t v hv
+  have h2 := fieldLength_pos t v
+  rw [h] at h1
+  simp at h1; omega
+
+theorem lexCompare_map {α β} (f : α → β) (cmp : β → β → Ordering) (xs ys : List α) :
+    lexCompare cmp (xs.map f) (ys.map f) = lexCompare (fun a b => cmp (f a) (f b)) xs ys := by
+  induction xs generalizing ys with
+  | nil => cases ys <;> rfl
+  | cons x xs ih => cases ys with
+    | nil => rfl
+    | cons y ys => simp [lexCompare, ih]
+
+theorem lexCompare_congr {α} (c1 c2 : α → α → Ordering) (xs ys : List α)
+    (h : ∀ a ∈ xs, ∀ b ∈ ys, c1 a b = c2 a b) : lexCompare c1 xs ys = lexCompare c2 xs ys := by
+  induction xs generalizing ys with
+  | nil => cases ys <;> rfl
+  | cons x xs ih => cases ys with
+    | nil => rfl
+    | cons y ys =>
+      simp only [lexCompare]
+      rw [h x (by simp) y (by simp), ih ys (fun a ha b hb => h a (by simp [ha]) b (by simp [hb]))]
+
+/-- the model's list case is `listEnc` of the element rows -/
+theorem encode_list_eq (o : SortOptions) (t : Ty) (vs : List Val) :
+    encode o (.list t) (.list vs) = listEnc o (vs.map (encode (childOpts o) t)) := by
+  cases vs with
+  | nil => simp [encode, listEnc]
+  | cons v vs => simp [encode, listEnc, List.map_map, Function.comp_def]
+
 end ArrowModel.C11
